@@ -241,12 +241,19 @@ def b_print(ip, *a, **k):
 def b_range(ip, *args):
     cs = [ops.const_int(a) for a in args]
     if all(c is not None for c in cs):
-        return PyList(list(range(*cs)))
+        r = RangeList(list(range(*cs)))
+        r.rng = range(*cs)
+        return r
     if len(args) == 1:
         return SymRange(0, args[0])
     if len(args) == 2:
         return SymRange(args[0], args[1])
     raise Unsupported('symbolic range with step')
+
+
+class RangeList(PyList):
+    """the list of a concrete range(): membership of a symbolic int is decided arithmetically, not by enumeration"""
+    rng = None
 
 
 class SymRange:
@@ -721,6 +728,20 @@ def find_key(ip, d, k):
 def contains(ip, container, item):
     if hasattr(container, 'pv_contains'):
         return container.pv_contains(ip, item)
+    if isinstance(container, RangeList) and container.rng is not None and len(container.items) == len(container.rng) \
+            and isinstance(item, Sym) and item.ty == 'int':
+        r = container.rng
+        if len(r) == 0:
+            return False
+        t = item.t
+        lo, hi = (r.start, r.stop) if r.step > 0 else (r.stop + 1, r.start + 1)
+        g = z3.And(t >= lo, t < hi)
+        if abs(r.step) != 1:
+            g = z3.And(g, (t - r.start) % abs(r.step) == 0)
+        return ops.sbool(g)
+    if isinstance(container, SymRange) and ops.pytype(item) in ('int', 'bool'):
+        t = ops.term(item, 'int')
+        return ops.sbool(z3.And(t >= ops.term(container.lo, 'int'), t < ops.term(container.hi, 'int')))
     if isinstance(container, (PyList, tuple, PySet)):
         items = container.items if not isinstance(container, tuple) else container
         r = False
